@@ -87,7 +87,7 @@ def _chatter(dec, kind, src, dst, k):
         CHATTER["claims"] += 1
 
 
-def framewise(kind, prio, pgn, src, dst, frames, tpad=0, long_lived=None, chatter=False, late_repeat=False):
+def framewise(kind, prio, pgn, src, dst, frames, tpad=0, long_lived=None, chatter=False, late_repeat=False, settings=None, before=None):
     ident = wire.can_id(prio, pgn, src, dst)
     pdu1 = ((pgn >> 8) & 0xFF) < 240
     d_eff = dst if pdu1 else 255
@@ -95,7 +95,7 @@ def framewise(kind, prio, pgn, src, dst, frames, tpad=0, long_lived=None, chatte
     def run():
         # long_lived: one decoder per route that has already seen every earlier case of this shard, including
         # an identical transmission of this very message (same stream, same sequence counter)
-        dec = NMEA2000Decoder() if long_lived is None else LONG_LIVED.setdefault(long_lived, NMEA2000Decoder())
+        dec = NMEA2000Decoder(**(settings or {})) if long_lived is None else LONG_LIVED.setdefault(long_lived, NMEA2000Decoder())
         r = None
         def give(f):
             if kind == "ebyte":
@@ -105,6 +105,12 @@ def framewise(kind, prio, pgn, src, dst, frames, tpad=0, long_lived=None, chatte
             if kind == "yd":
                 return dec.decode_yacht_devices_string(wire.yd_line(ident, f).strip())
             return dec.decode_basic_string(wire.plain_line(prio, pgn, src, d_eff, f) + (",ff,ee"[:3 * (8 - len(f))] if tpad else ""))
+        for f in (before or []):
+            # another message of the same stream first (one that this decoder's id filter drops)
+            try:
+                give(f)
+            except Exception:  # noqa: BLE001
+                pass
         prev = []
         if late_repeat and len(frames) > 1:
             # the message before this one on the same stream (same content, the previous sequence counter) went through in full;
@@ -293,6 +299,28 @@ def run_shard(spec, acc):
                          ("mixed_plain_whole", lambda: LONG_LIVED.setdefault("mixed", D()).decode_basic_string(wire.plain_line(prio, d.pgn, src, d_eff, pb), already_combined=True)),
                          ("mixed_usb_frames", framewise("usb", prio, d.pgn, src, dst, frames, long_lived="mixed")),
                          ("mixed_plain_frames", framewise("plain", prio, d.pgn, src, dst, frames, long_lived="mixed"))]
+                sibs_ = [x for x in dbx.by_pgn.get(d.pgn, []) if x is not d and x.supported and x.fixed_layout and (x.length or 0) > 8]
+                if sibs_ and c % 2 == 0:
+                    # decoders whose id filter drops a sibling definition of this PGN, right after a message of that sibling on the
+                    # same stream: frame by frame and pre-assembled alike, this message comes through
+                    sib = sibs_[c % len(sibs_)]
+                    ps_ = dbx.pack(sib, gen.base_raws(sib, rng, dbx))
+                    if dbx.select(sib.pgn, ps_) is sib:
+                        pbs_ = ps_.to_bytes(sib.length, "little")
+                        fs_ = wire.fast_frames(pbs_, (seq + 5) % 8, 0xFF)
+                        flt = {"exclude_pgns": [sib.id]}
+
+                        def whole_after(pbs_=pbs_, flt=flt):
+                            dd = D(**flt)
+                            try:
+                                dd.decode_basic_string(wire.plain_line(prio, d.pgn, src, d_eff, pbs_), already_combined=True)
+                            except Exception:  # noqa: BLE001
+                                pass
+                            return dd.decode_basic_string(wire.plain_line(prio, d.pgn, src, d_eff, pb), already_combined=True)
+                        routes["plain_whole_after_a_filtered_sibling"] = whole_after
+                        routes["ebyte_frames_after_a_filtered_sibling"] = framewise("ebyte", prio, d.pgn, src, dst, frames, settings=flt, before=fs_)
+                        routes["yd_frames_after_a_filtered_sibling"] = framewise("yd", prio, d.pgn, src, dst, frames, settings=flt, before=fs_)
+                        acc.count("cases_with_a_filtered_sibling_first")
                 if c % 3 == 0:
                     for k_ in ("usb", "yd", "plain"):
                         routes[f"{k_}_frames_between_claims"] = framewise(k_, prio, d.pgn, src, dst, frames, chatter=True)
